@@ -5,7 +5,7 @@ REQUIRED = ["CifModel.C08_firstChar_link", "CifModel.C08_fold_prefix", "CifModel
             "CifModel.C08_chunking_irrelevant", "CifModel.C08_style_independent", "CifModel.C08_handle_eol",
             "CifModel.C08_line_numbers", "CifModel.C08_unrepaired_first_char", "CifModel.C08_cex_three_cr"]
 GEN = ["ParseConsts"]
-FAMILIES = ["fills"]
+FAMILIES = ["fills", "align"]
 TRUSTED_BASE = [
     "Lean 4.33.0 kernel; axioms propext, Quot.sound, Classical.choice only",
     "Model/Fill.lean as a description of get_first_char / get_more_chars / HANDLE_EOL (parser.c): tied by family `fills`, which "
